@@ -2274,3 +2274,29 @@ func (w *World) uniformArgOf(p *ssa.Parameter) ssa.Value {
 	s.uniform[p] = first
 	return first
 }
+
+// localFuncTargets: the functions a local function-typed value can hold: every leaf (through
+// phis and single-store locals) is a function literal, a method value or a named function.
+func (w *World) localFuncTargets(v ssa.Value) []*ssa.Function {
+	var out []*ssa.Function
+	for _, l := range liveLeaves(w.resolveLoad(v)) {
+		switch x := w.resolveLoad(l).(type) {
+		case *ssa.MakeClosure:
+			if b := w.closureBody(x); b != nil {
+				out = append(out, b)
+				continue
+			}
+			return nil
+		case *ssa.Function:
+			out = append(out, x)
+		case *ssa.Const:
+			if x.Value == nil {
+				continue // nil function value: never called on that path (or panics)
+			}
+			return nil
+		default:
+			return nil
+		}
+	}
+	return out
+}
